@@ -82,7 +82,8 @@ Lemma phrase_candidates f st p :
 Proof.
   intros [Hf|[Hf|[Hf|[Hf|Hf]]]] H; subst f; cbn [site_candidates] in H; in_inv; try reflexivity;
     try (match goal with H : In _ (call_candidates _ _) |- _ => unfold call_candidates in H end; in_inv; reflexivity);
-    match goal with H : In _ (agg_candidates _ _) |- _ => unfold agg_candidates in H end; in_inv; reflexivity.
+    try (match goal with H : In _ (agg_candidates _ _) |- _ => unfold agg_candidates in H end; in_inv; reflexivity);
+    match goal with H : In _ (choice_candidates _ _ _) |- _ => unfold choice_candidates in H end; in_inv; reflexivity.
 Qed.
 Lemma phrase_eligible f st p : phrase_class f -> eligible f st p = eligible_phrase f st p.
 Proof. intros [Hf|[Hf|[Hf|[Hf|Hf]]]]; subst f; reflexivity. Qed.
